@@ -140,14 +140,19 @@ theorem c21_resolver_is_a_stack_machine (f : Func) (hsp : f.hasSpecial = true) (
 /-- **The region theorem in any context** (`block` / `loop` / `if`): whatever frames are pending around the construct (exit and
     semantic-after probes of enclosing constructs, if-exit code waiting for an `else`), the machine emits the opener's `before` code, the
     replacement, the plain lists of the removed instructions, and continues behind the matching `end` **with exactly the frames it had in
-    front of the construct and nothing being removed**: every probe outside the construct is placed as if the construct were not there. -/
+    front of the construct and nothing being removed**: every probe outside the construct is placed as if the construct were not there.
+    (`altOf X alt` is the replacement itself; when the opener also carried an instruction-level alternate, the code appends the replacement
+    to it — `c21_alt_of_plain_opener`.) -/
 theorem c21_region_in_any_context (last idx : Nat) (b : Fr) (base' : List Fr) (X endI : Instr) (region post : List Instr) (alt : List Tok)
     (hk : X.kind = .block ∨ X.kind = .loop ∨ X.kind = .if_) (hx : X.blockAlt = some alt) (hreg : depthAfter region 0 = some 0)
     (hend : endI.kind = .end_) (hl : idx + region.length + 2 ≤ last) (hpost : post ≠ []) :
     specRunA last idx (b :: base') none (X :: (region ++ endI :: post))
       = (specRunA last (idx + region.length + 2) (b :: base') none post).map
-          (fun o => X.before ++ alt ++ X.after ++ removedToks region ++ endI.before ++ endI.after ++ o) :=
+          (fun o => X.before ++ altOf X alt ++ X.after ++ removedToks region ++ endI.before ++ endI.after ++ o) :=
   specRunA_alt_open last idx b base' X endI region post alt hk hx hreg hend hl hpost
+
+/-- the replacement as it is emitted: `alt` itself on an opener without an instruction-level alternate -/
+theorem c21_alt_of_plain_opener (X : Instr) (alt : List Tok) (h : X.alt = none) : altOf X alt = alt := altOf_none X alt h
 
 /-- … and for an alternate on an `else`: the if-exit code waiting for the `else` goes in front of the replacement, the arm contributes
     only its plain lists, and the `end` of the `if` closes the frame as if nothing had been removed. -/
@@ -156,7 +161,7 @@ theorem c21_else_in_any_context (last idx : Nat) (top b : Fr) (base' : List Fr) 
     (hend : endI.kind = .end_) (hl : idx + region.length + 1 ≤ last) :
     specRunA last idx (top :: b :: base') none (X :: (region ++ endI :: post))
       = (specRunA last (idx + region.length + 1) ({ top with ifExit := [] } :: b :: base') none (endI :: post)).map
-          (fun o => X.before ++ top.ifExit ++ alt ++ X.after ++ removedToks region ++ o) :=
+          (fun o => X.before ++ top.ifExit ++ altOf X alt ++ X.after ++ removedToks region ++ o) :=
   specRunA_alt_else last idx top b base' X endI region post alt hk hx hreg hend hl
 
 /-! non-vacuity (decided): an alternate on the `else` of an `if` that carries a block-exit probe (the shape of seeded change
